@@ -144,7 +144,7 @@ def execute(plan):
                     if isinstance(want, dict):
                         # every member of the stored object appears with its value; nothing else is added
                         good = all(k2 in sec and sec[k2] == v2 and type(sec[k2]) is type(v2) for k2, v2 in want.items()) and \
-                            set(plug.body(sec)) <= set(want)
+                            set(plug.body(sec, plug.header_keys(doc))) <= set(want)
                     else:
                         good = "Data" in sec and sec["Data"] == want and type(sec["Data"]) is type(want)
                     if not good:
